@@ -140,7 +140,7 @@ def emit(unit):
         label = "%s :: %s" % (it.file, " :: ".join(it.path))
         rw = Rewriter(orig, label)
         if isinstance(it, Fn) and it.fragment:
-            rw.take_fragment(it.fragment["start"], it.fragment["sig"], it.fragment.get("tail", ""), it.fragment.get("to_block_end", False), it.fragment.get("prologue", ""))
+            rw.take_fragment(it.fragment["start"], it.fragment["sig"], it.fragment.get("tail", ""), it.fragment.get("to_block_end", False), it.fragment.get("prologue", ""), it.fragment.get("wrap"))
         rw.strip_docs_and_attrs()
         rw.strip_pub()
         for mname, mfile, mpath in getattr(it, "macros", []) or []:
